@@ -307,9 +307,21 @@ Section WithQueryer.
 
   Definition pipeline_cost : nat := handle_cost + chase_cost.
 
+  Lemma pipeline_hit_guarded : forall c, guarded (pipeline_hit nq c).
+  Proof.
+    intros c. unfold pipeline_hit. apply guarded_bind; [apply chase_gate_guarded|].
+    intros []; try apply g_ret; apply g_enf; intros []; apply g_ret.
+  Qed.
+  Lemma pipeline_hit_costs : forall c, costs (pipeline_hit nq c) chase_cost.
+  Proof.
+    intros c. unfold pipeline_hit. apply c_weaken with (n := chase_cost + 0); [|lia].
+    apply costs_bind; [apply chase_gate_costs|].
+    intros []; try apply c_ret; apply c_enf; intros []; apply c_ret.
+  Qed.
+
   Lemma pipeline_guarded : forall c, guarded (pipeline maxdepth qmin v6 Smax Fmax nq c).
   Proof.
-    intros c. unfold pipeline. apply g_choose. intros [|hit] _; [|apply chase_gate_guarded].
+    intros c. unfold pipeline. apply g_choose. intros [|hit] _; [|apply pipeline_hit_guarded].
     unfold pipeline_miss. apply guarded_bind; [apply handle_guarded|].
     intros []; try apply write_failure_guarded.
     - apply g_choose. intros [|sf] _; [|apply write_failure_guarded].
@@ -326,7 +338,7 @@ Section WithQueryer.
         apply c_weaken with (n := chase_cost + 0); [|lia].
         apply costs_bind; [apply chase_gate_costs|]. intros []; try apply write_failure_costs. apply c_ret.
       + apply c_choose. intros i _. apply write_failure_costs.
-    - eapply c_weaken; [apply chase_gate_costs|lia].
+    - eapply c_weaken; [apply pipeline_hit_costs|lia].
   Qed.
 End WithQueryer.
 
